@@ -99,6 +99,9 @@ CouponList<A>* CouponList<A>::newList(const void* bytes, size_t len, const A& al
   const bool emptyFlag = ((data[hll_constants::FLAGS_BYTE] & hll_constants::EMPTY_FLAG_MASK) ? true : false);
 
   const uint32_t couponCount = data[hll_constants::LIST_COUNT_BYTE];
+  if (couponCount > (1u << hll_constants::LG_INIT_LIST_SIZE)) {
+    throw std::invalid_argument("Possible corruption: coupon count exceeds the capacity of a list");
+  }
   const uint32_t couponsInArray = (compact ? couponCount : (1 << HllUtil<A>::computeLgArrInts(LIST, couponCount, lgK)));
   const size_t expectedLength = hll_constants::LIST_INT_ARR_START + (couponsInArray * sizeof(uint32_t));
   if (len < expectedLength) {
@@ -108,6 +111,8 @@ CouponList<A>* CouponList<A>::newList(const void* bytes, size_t len, const A& al
 
   ClAlloc cla(allocator);
   CouponList<A>* sketch = new (cla.allocate(1)) CouponList<A>(lgK, tgtHllType, mode, allocator);
+  using coupon_list_ptr = std::unique_ptr<CouponList<A>, std::function<void(HllSketchImpl<A>*)>>;
+  coupon_list_ptr ptr(sketch, sketch->get_deleter());
   sketch->couponCount_ = couponCount;
   sketch->putOutOfOrderFlag(oooFlag); // should always be false for LIST
 
@@ -115,8 +120,9 @@ CouponList<A>* CouponList<A>::newList(const void* bytes, size_t len, const A& al
     // only need to read valid coupons, unlike in stream case
     std::memcpy(sketch->coupons_.data(), data + hll_constants::LIST_INT_ARR_START, couponCount * sizeof(uint32_t));
   }
-  
-  return sketch;
+  sketch->checkCouponCount();
+
+  return ptr.release();
 }
 
 template<typename A>
@@ -151,6 +157,9 @@ CouponList<A>* CouponList<A>::newList(std::istream& is, const A& allocator) {
   using coupon_list_ptr = std::unique_ptr<CouponList<A>, std::function<void(HllSketchImpl<A>*)>>;
   coupon_list_ptr ptr(sketch, sketch->get_deleter());
   const uint32_t couponCount = listHeader[hll_constants::LIST_COUNT_BYTE];
+  if (couponCount > sketch->coupons_.size()) {
+    throw std::invalid_argument("Possible corruption: coupon count exceeds the capacity of a list");
+  }
   sketch->couponCount_ = couponCount;
   sketch->putOutOfOrderFlag(oooFlag); // should always be false for LIST
 
@@ -165,8 +174,21 @@ CouponList<A>* CouponList<A>::newList(std::istream& is, const A& allocator) {
 
   if (!is.good())
     throw std::runtime_error("error reading from std::istream"); 
+  sketch->checkCouponCount();
 
   return ptr.release();
+}
+
+template<typename A>
+void CouponList<A>::checkCouponCount() const {
+  uint32_t stored = 0;
+  for (const uint32_t coupon: coupons_) {
+    if (coupon != hll_constants::EMPTY) ++stored;
+  }
+  if (stored != couponCount_) {
+    throw std::invalid_argument("Possible corruption: coupon count " + std::to_string(couponCount_)
+                                + " does not match the number of stored coupons " + std::to_string(stored));
+  }
 }
 
 template<typename A>
